@@ -57,9 +57,9 @@ type c19Step struct {
 	K    string   `json:"k"` // req | pair | path | match
 	A    *c19Req  `json:"a,omitempty"`
 	B    *c19Req  `json:"b,omitempty"`
-	S    string   `json:"s,omitempty"`   // path: string (hex); match: route path (hex)
+	S    string   `json:"s,omitempty"`    // path: string (hex); match: route path (hex)
 	Dirs []string `json:"dirs,omitempty"` // path: leading Join elements (hex)
-	M    string   `json:"m,omitempty"`   // match: method
+	M    string   `json:"m,omitempty"`    // match: method
 }
 
 type c19Pre struct {
@@ -74,18 +74,20 @@ type c19Case struct {
 }
 
 type c19Res struct {
-	Sent     bool     `json:"sent"`
-	Status   int      `json:"status"`
-	Entered  bool     `json:"entered"`
-	Pattern  string   `json:"pattern"`
-	Params   []string `json:"params"` // key=hex(value)
-	Path     string   `json:"path"`
-	RawPath  string   `json:"rawpath"`
-	BodyLen  int      `json:"bodylen"`
-	BodySha  string   `json:"bodysha"`
-	BodyHead string   `json:"bodyhead"` // first 64 bytes, hex
-	Tokens   []string `json:"tokens"`   // sentinel tokens found in the response
-	Err      string   `json:"err,omitempty"`
+	Sent       bool     `json:"sent"`
+	Status     int      `json:"status"`  // as read by the client (0: no response read)
+	SStatus    int      `json:"sstatus"` // as written by the handler (0: handler not entered)
+	Entered    bool     `json:"entered"`
+	Incomplete bool     `json:"incomplete"` // the harness could not observe this request (dial / wait timed out under load)
+	Pattern    string   `json:"pattern"`
+	Params     []string `json:"params"` // key=hex(value)
+	Path       string   `json:"path"`
+	RawPath    string   `json:"rawpath"`
+	BodyLen    int      `json:"bodylen"`
+	BodySha    string   `json:"bodysha"`
+	BodyHead   string   `json:"bodyhead"` // first 64 bytes, hex
+	Tokens     []string `json:"tokens"`   // sentinel tokens found in the response
+	Err        string   `json:"err,omitempty"`
 }
 
 type c19Obs struct {
@@ -93,12 +95,15 @@ type c19Obs struct {
 	Step   int        `json:"step"`
 	K      string     `json:"k"`
 	Res    []c19Res   `json:"res,omitempty"`
-	Diff   [][]string `json:"diff"` // [kind(created|removed|changed), hex(relpath), before, after]
+	Diff   [][]string `json:"diff"`  // [kind(created|removed|changed), hex(relpath), before, after]
 	Queue  []string   `json:"queue"` // names appended to the import queue by this step (hex)
 	Out    []string   `json:"out,omitempty"`
 	Panic  string     `json:"panic,omitempty"`
 	Routes [][]string `json:"routes,omitempty"`
 }
+
+// generous: the check may run on a busy machine; nothing in a healthy run waits this long
+const c19Wait = 120 * time.Second
 
 var c19Tokens = []string{"SENTINEL-OUT", "SENTINEL-BASE", "SENTINEL-SIB", "SENTINEL-SUB", "SENTINEL-STATE"}
 
@@ -176,6 +181,28 @@ type c19Rec struct {
 	path    string
 	rawpath string
 	done    chan struct{}
+	status  int
+}
+
+// records the status the handler writes: the client may fail to read the response of a request
+// whose body it cut short
+type c19Writer struct {
+	http.ResponseWriter
+	rec *c19Rec
+}
+
+func (w *c19Writer) WriteHeader(code int) {
+	if w.rec.status == 0 {
+		w.rec.status = code
+	}
+	w.ResponseWriter.WriteHeader(code)
+}
+
+func (w *c19Writer) Write(b []byte) (int, error) {
+	if w.rec.status == 0 {
+		w.rec.status = 200
+	}
+	return w.ResponseWriter.Write(b)
 }
 
 type c19Env struct {
@@ -205,7 +232,7 @@ func (e *c19Env) wrap(w http.ResponseWriter, r *http.Request) {
 		}
 		close(rec.done)
 	}()
-	e.router.ServeHTTP(w, r)
+	e.router.ServeHTTP(&c19Writer{ResponseWriter: w, rec: rec}, r)
 }
 
 func c19NewEnv(t *testing.T, tmp string, c *c19Case) *c19Env {
@@ -285,11 +312,16 @@ func (e *c19Env) fill(res *c19Res, id string) {
 		rec := v.(*c19Rec)
 		select {
 		case <-rec.done:
-		case <-time.After(10 * time.Second):
+		case <-time.After(c19Wait):
 			res.Err += " handler did not finish"
+			res.Incomplete = true
 			return
 		}
 		res.Entered = true
+		res.SStatus = rec.status
+		if res.SStatus == 0 {
+			res.SStatus = 200 // handler returned without writing: net/http answers 200
+		}
 		res.Pattern, res.Path, res.RawPath = rec.pattern, c19hex(rec.path), c19hex(rec.rawpath)
 		if rec.params != nil {
 			res.Params = rec.params
@@ -317,12 +349,12 @@ func (e *c19Env) do(q *c19Req, id string) (res c19Res) {
 		e.fill(&res, id)
 		return res
 	}
-	conn, err := net.DialTimeout("tcp", e.srv.Listener.Addr().String(), 5*time.Second)
+	conn, err := net.DialTimeout("tcp", e.srv.Listener.Addr().String(), c19Wait)
 	if err != nil {
-		return c19Res{Err: err.Error(), Tokens: []string{}, Params: []string{}}
+		return c19Res{Err: err.Error(), Incomplete: true, Tokens: []string{}, Params: []string{}}
 	}
 	defer conn.Close()
-	_ = conn.SetDeadline(time.Now().Add(10 * time.Second))
+	_ = conn.SetDeadline(time.Now().Add(c19Wait))
 	cl := q.CL
 	if cl < 0 {
 		cl = len(body)
@@ -351,6 +383,9 @@ func (e *c19Env) do(q *c19Req, id string) (res c19Res) {
 	resp, err := http.ReadResponse(br, nil)
 	if err != nil {
 		res = c19Res{Sent: true, Err: "read response: " + err.Error(), Tokens: []string{}, Params: []string{}}
+		if ne, ok := err.(net.Error); ok && ne.Timeout() {
+			res.Incomplete = true
+		}
 		e.fill(&res, id)
 		return res
 	}
